@@ -94,6 +94,8 @@ type Cloud struct {
 
 	// Hook is called under the cloud lock when a call arrives, before any effect.
 	Hook func(cl *Cloud, c *Call)
+	// After is called under the cloud lock when a call has finished (effect applied).
+	After func(cl *Cloud, c *Call)
 	// Gate, if set, is called WITHOUT the lock after the hook and before the effect;
 	// the harness may block there to hold the call.
 	Gate func(c *Call)
@@ -130,6 +132,18 @@ func (cl *Cloud) AddENI(typ string, nV4, nV6 int) *daemon.ENI {
 	e := cl.mkENI(typ, nV4, nV6, false)
 	return cl.toDaemon(e)
 }
+
+// AddENIWithMAC is AddENI with a caller-chosen MAC address.
+func (cl *Cloud) AddENIWithMAC(typ string, nV4, nV6 int, mac string) *daemon.ENI {
+	cl.mu.Lock()
+	defer cl.mu.Unlock()
+	e := cl.mkENI(typ, nV4, nV6, false)
+	e.MAC = mac
+	return cl.toDaemon(e)
+}
+
+// SortedAddrs returns the keys of an address set in ascending order.
+func SortedAddrs(m map[netip.Addr]bool) []netip.Addr { return sortedAddrs(m) }
 
 func (cl *Cloud) mkENI(typ string, nV4, nV6 int, byFactory bool) *ENI {
 	cl.nextENI++
@@ -237,6 +251,9 @@ func (cl *Cloud) begin(c *Call) *Fault {
 func (cl *Cloud) end(c *Call, err error) {
 	c.Err = err != nil
 	cl.Log = append(cl.Log, *c)
+	if cl.After != nil {
+		cl.After(cl, c)
+	}
 	cl.inflight--
 	if c.Kind == KCreate {
 		cl.creating--
